@@ -443,7 +443,7 @@ fn draw_local_act() -> LocalAct {
 }
 
 /// Judge the run from what the endpoint wrote (`d` = its direction) and what its API returned
-fn judge(mon: &wire::MonitorRef, d: usize, pact: PeerAct, lact: LocalAct, out: &Outcome, rep: &PeerReport, heartbeat: bool) {
+fn judge(mon: &wire::MonitorRef, d: usize, pact: PeerAct, lact: LocalAct, out: &Outcome, rep: &PeerReport, heartbeat: bool, shutdown_fails: bool) {
     let mut m = mon.borrow_mut();
     m.sync();
     if sim::has_violation() {
@@ -488,7 +488,10 @@ fn judge(mon: &wire::MonitorRef, d: usize, pact: PeerAct, lact: LocalAct, out: &
     }
     // API results
     if let Some(api) = &out.api {
+        // (when shutting the stream down fails after a clean exchange, reporting that failure is not
+        // held against the endpoint; the peer's error, when there is one, must get through all the same)
         let clean_exchange = !rep.cut
+            && !shutdown_fails
             && rep.sent_illegal.is_none()
             && rep.sent_close_error.is_none()
             && !rep.silent
@@ -560,6 +563,12 @@ pub async fn run_client() {
     ));
     sim::mark_nontrivial();
     let (cs, ps, net) = SimStream::pair("client", "peer", nab, nba);
+    // fault: the final shutdown of the endpoint's write half fails
+    let shutdown_fails = choice(4) == 1;
+    if shutdown_fails {
+        net.a2b.lock().unwrap().shutdown_fails = true;
+        sim::append_config(" shutdown-fails");
+    }
     let mon = wire::install(&net, ["client", "peer"], [models(), Models::none()]);
     let mut peer = Peer::new("peer", ps);
     let peer_open = peer::open("peer", Some(pick(&[65536u32, 512])), Some(255), if heartbeat { Some(pick(&[300u32, 2000])) } else { None });
@@ -657,7 +666,7 @@ pub async fn run_client() {
     }
     // let the endpoint finish writing whatever it is going to write
     let _ = peer.drain_for(3000).await;
-    judge(&mon, 0, pact, judged_as(lact), &out, &rep, heartbeat);
+    judge(&mon, 0, pact, judged_as(lact), &out, &rep, heartbeat, shutdown_fails);
 }
 
 pub async fn run_listener() {
@@ -678,6 +687,11 @@ pub async fn run_listener() {
     ));
     sim::mark_nontrivial();
     let (ps, ls, net) = SimStream::pair("peer", "listener", nab, nba);
+    let shutdown_fails = choice(4) == 1;
+    if shutdown_fails {
+        net.b2a.lock().unwrap().shutdown_fails = true;
+        sim::append_config(" shutdown-fails");
+    }
     let mon = wire::install(&net, ["peer", "listener"], [Models::none(), models()]);
     let mut peer = Peer::new("peer", ps);
     let peer_open = peer::open("peer", Some(pick(&[65536u32, 512])), Some(255), if heartbeat { Some(pick(&[300u32, 2000])) } else { None });
@@ -798,7 +812,7 @@ pub async fn run_listener() {
         return;
     }
     let _ = peer.drain_for(3000).await;
-    judge(&mon, 1, pact, lact, &out, &rep, heartbeat);
+    judge(&mon, 1, pact, lact, &out, &rep, heartbeat, shutdown_fails);
     let _ = NetCfg::plain();
 }
 
